@@ -20,11 +20,18 @@ RULE = (
 ASSUMPTIONS = [
     "refused = raises OFXHeaderError (the header error) and returns nothing",
     "not asserted: omission of COMPRESSION (optional in the pattern), corruption of the XML declaration, non-ASCII header bytes",
+    "not asserted: a flat (v1) header text whose VERSION is numeric with at most three digits but outside 100-199 (000, 099, 220): the v1 header class declares 'three digits' and the statement speaks of 'all three-digit v1 versions'",
 ]
 
 V1_SUPPORTED = [102, 103, 151, 160]
 V2_SUPPORTED = [200, 201, 202, 203, 210, 211, 220]
-UID = st.text("ABCDEFGHIJKLMNOPQRSTUVWXYZabcdefghijklmnopqrstuvwxyz0123456789_-", min_size=1, max_size=36)
+_HEX = st.text("0123456789abcdefABCDEF", min_size=32, max_size=32)
+UID = st.one_of(
+    st.text("ABCDEFGHIJKLMNOPQRSTUVWXYZabcdefghijklmnopqrstuvwxyz0123456789_-", min_size=1, max_size=36),
+    st.text("ABCDEFGHIJKLMNOPQRSTUVWXYZabcdefghijklmnopqrstuvwxyz0123456789_-", min_size=1, max_size=36),
+    _HEX.map(lambda h: f"{h[:8]}-{h[8:12]}-{h[12:16]}-{h[16:20]}-{h[20:]}"),
+    _HEX,
+)
 BODY = "<OFX><A>1</A></OFX>"
 
 V1_FIELDS = ["OFXHEADER", "DATA", "VERSION", "SECURITY", "ENCODING", "CHARSET", "COMPRESSION", "OLDFILEUID", "NEWFILEUID"]
@@ -78,14 +85,16 @@ def corruptions(kind, vals):
     fields = V1_FIELDS if kind == 1 else V2_FIELDS
     mk = v1_text if kind == 1 else v2_text
     bad = {
-        "OFXHEADER": ["200" if kind == 1 else "100", "101", "1000", "0"],
-        "VERSION": (["1020", "10200", "1x2", "abc", ""] if kind == 1 else ["204", "199", "2000", "221", "abc", "300", ""]),
-        "SECURITY": ["TYPE2", "none", "Type1", "X"],
+        "OFXHEADER": ["200" if kind == 1 else "100", "101", "1000", "0", "000", "1" * 5000],
+        "VERSION": (["1020", "10200", "1x2", "abc", "", "9" * 5000] if kind == 1 else ["204", "199", "2000", "221", "abc", "300", "", "000", "9" * 5000]),
+        # junk, case variants, and tokens that are valid in *another* field or in a model enumeration
+        "SECURITY": ["TYPE2", "none", "Type1", "X", "OFXSGML", "USASCII", "1252", "INFO"],
         "OLDFILEUID": ["u" * 37],
         "NEWFILEUID": ["N" * 37, "a-b_" * 10],
     }
     if kind == 1:
-        bad.update({"DATA": ["OFXXML", "SGML", "XML"], "ENCODING": ["UTF-16", "ASCII", "USASCII1"], "CHARSET": ["8859-1", "UTF-8", "1251", "ISO-8859-2"], "COMPRESSION": ["GZIP", "ZIP"]})
+        bad.update({"DATA": ["OFXXML", "SGML", "XML", "NONE", "TYPE1", "USASCII"], "ENCODING": ["UTF-16", "ASCII", "USASCII1", "1252", "NONE", "OFXSGML", "ISO-8859-1"],
+                    "CHARSET": ["8859-1", "UTF-8", "1251", "ISO-8859-2", "USASCII", "UNICODE", "TYPE1", "OFXSGML"], "COMPRESSION": ["GZIP", "ZIP", "TYPE1", "USASCII", "OFXSGML"]})
     for f, alts in bad.items():
         for a in alts:
             out.append((f"bad-{f}", mk(dict(vals, **{f: a}))))
